@@ -36,7 +36,8 @@ SECOND_ENTRY = {"Snake": "r3c3t4000", "Knapsack": "n10s", "Connector": "g6a3t2un
 
 
 # tiny instances on which episodes keep ending by *completion* (a won game), not only by invalid moves / time limits
-WIN_ENTRY = {"Snake": ["r2c2t4000"]}
+WIN_ENTRY = {"Snake": ["r2c2t4000"], "Sudoku": ["near"]}
+SOLVE_STYLES = {"Sudoku"}       # entries that need the model's constructive policy to reach their completion endings
 
 
 class Rig:
@@ -71,6 +72,8 @@ class Rig:
             "fold_in(1)": jax.jit(lambda k: jax.random.fold_in(k, 1)),
         }
         self.viable = list(self.derivations)
+        # plain-Python (un-jitted) wrapper steps are rationed: one MID step and one LAST step, cheap environments only
+        self.eager_left = {"mid": 1, "last": 1} if b.name in ("Snake", "Knapsack", "Game2048", "Maze", "TSP") else {}
         # instance diversity of this configuration: the "not the same instance again and again" oracle is only
         # evaluated where a coincidence is practically impossible (>= 16 distinct instances among 32 keys and >= 6
         # boundaries: chance of all-equal resets below 1e-6); tiny configurations (2x2 board of 2048) are skipped
@@ -156,7 +159,13 @@ def run_case(ctx, rig, key_words, plan=None, actions=None, fail=None, typed=Fals
     for i in range(n):
         if actions is None:
             mode, r = plan["steps"][i]
-            a = b.pick_action(s, wts, mode, r)
+            a = None
+            if mode == "solve":
+                if not hasattr(rig, "solve_fn"):
+                    rig.solve_fn = episodes.solve_fn_for(b)
+                a = episodes.solved_action(b, rig.solve_fn, episodes.host(s), r)
+            if a is None:
+                a = b.pick_action(s, wts, mode, r)
         else:
             a = b.to_action(actions[i])
         acts.append(np.asarray(a))
@@ -164,6 +173,15 @@ def run_case(ctx, rig, key_words, plan=None, actions=None, fail=None, typed=Fals
         ws, wts2 = rig.w_step(s, a)
         ctx.evals()
         hws, hwts = episodes.host((ws, wts2))
+        kind = "last" if int(ts1.step_type) == episodes.LAST else "mid"
+        if rig.eager_left.get(kind, 0) > 0:
+            rig.eager_left[kind] -= 1
+            he = episodes.host(rig.W.step(s, a))        # the same call without jit
+            ctx.evals()
+            ctx.count(f"eager_wrapper_steps_{kind}")
+            d = treecmp.diff(he, (hws, hwts), exact=False)
+            if d:
+                fail("eager", "un-jitted AutoResetWrapper.step differs from the jitted call", f"step {i} ({kind}): {d}")
         if int(ts1.step_type) != episodes.LAST:
             d = treecmp.diff(hws, episodes.host(s1))
             if d:
@@ -249,10 +267,12 @@ def run_case(ctx, rig, key_words, plan=None, actions=None, fail=None, typed=Fals
 
 def work_items(tier, flt):
     scale = (flt or {}).get("scale", 1.0)
-    names = QUICK_ENVS if tier == "quick" else envs.ENV_NAMES
+    names = (QUICK_ENVS + ["Sudoku"]) if tier == "quick" else envs.ENV_NAMES
     items = []
     for env in envs.select_envs(names, flt):
         es = [SHORT_ENTRY[env]] + WIN_ENTRY.get(env, [])
+        if tier == "quick" and env not in QUICK_ENVS:
+            es = WIN_ENTRY.get(env, [])
         if tier == "thorough" and env in SECOND_ENTRY:
             es.append(SECOND_ENTRY[env])
         if flt and flt.get("entry"):
@@ -307,9 +327,10 @@ def run_item(item, seed, tier):
                     ctx.sample({"env": env, "entry": entry, "flag": flag, "key": list(key), "boundaries": nb,
                                 "actions": case["actions"][:10]})
 
+        styles = ("solve", "solve", "solveish", "legal") if (env in SOLVE_STYLES and entry in WIN_ENTRY.get(env, [])) else \
+            ("legalish", "chaos", "late_illegal", "legal")
         hyp.drive({"key": episodes.keys(),
-                   "plan": episodes.plans(max_len=N_STEPS, min_len=N_STEPS,
-                                          styles=("legalish", "chaos", "late_illegal", "legal"))},
+                   "plan": episodes.plans(max_len=N_STEPS, min_len=N_STEPS, styles=styles)},
                   one, seed, item["n"])
     return ctx.result()
 
